@@ -120,7 +120,7 @@ def write_readme():
                                                   m["needs_to_manifest"].replace("|", "/"), rep.replace("|", "/")))
     txt = ("# Seeded breaking changes\n\n"
            "Each directory holds one change to ngicks/gokugen written by an independent sub-agent that saw only property texts\n"
-           "(rounds 1-4: the text of one property; rounds 5-6: the twenty texts and one source file to change) and a scratch\n"
+           "(rounds 1-4 and 7-9: the text of one property; rounds 5-6: the twenty texts and one source file to change) and a scratch\n"
            "worktree of /repo, never anything from /verif: `patch.diff`, the demonstration (`demo_test.go`, how to run it in\n"
            "`RUN.txt`), the author's `NOTES.md`, and `meta.json`. Every change compiles, passes the existing suite and was\n"
            "confirmed in a scratch worktree (demonstration passes without it and fails with it). None is ever committed to /repo.\n\n"
